@@ -8,7 +8,7 @@ from . import core, meta as M, suite_meta as SM, check_meta as CM, check_wrapper
 THEOREMS = ['C07.merge_valid_slice', 'C07.merge_valid_time', 'C07.simplify_valid',
             'C07.subset_slice_valid', 'C07.subset_time_valid', 'C07.subset_vector_valid',
             'C07.subset_slice_raw_valid', 'C07.makeEmpty_bases', 'C07.makeEmpty_valid',
-            'C07.makeEmpty_refuses']
+            'C07.makeEmpty_refuses', 'C07.merge_valid_vector', 'C07.convert_valid']
 
 
 def make_empty_round(rep, r, tier):
@@ -132,7 +132,7 @@ def chain_round(rep, r, tier):
                             full = None
                 except Exception as e:
                     tag = 'chain:' + op
-                    if op == 'split' and isinstance(e, KeyError) and len(shape) >= 4 and shape[-1] == 1:
+                    if op in ('split', 'split_merge') and isinstance(e, KeyError) and len(shape) >= 4 and shape[-1] == 1:
                         # get_subset of an extension whose last axis is singleton but present (finding F23)
                         tag = 'subset:chain-untrimmed/raise:KeyError'
                     rep.failure('chain step %s raised %r' % (hist[-1] if hist else op, e),
